@@ -86,8 +86,8 @@ def bind(chk: Check, tier: str, seed: int):
     tmpd = tempfile.mkdtemp(dir=str(workdir(PROP + "-ctor")))
     family = [dict(exclude_pgns=[60928, 127250]), dict(exclude_pgns=["isoAddressClaim", 130306]), dict(exclude_pgns=[60928]),
               dict(exclude_pgns=[127250, 130306]), dict(include_pgns=[60928, 127250]), dict(include_pgns=["isoAddressClaim"]),
-              dict(include_pgns=[127250]), dict(exclude_pgns=[127250], exclude_manufacturer_code=["Furuno"]),
-              dict(include_manufacturer_code=["Maretron"]), dict(dump_pgns=[60928, "windData"], dump_to_file=tmpd + "/d.jsonl"),
+              dict(include_pgns=[127250]), dict(exclude_pgns=[127250], exclude_manufacturer_code=["Garmin"]),
+              dict(include_manufacturer_code=["BEP Marine"]), dict(dump_pgns=[60928, "windData"], dump_to_file=tmpd + "/d.jsonl"),
               dict(preferred_units={PQ.ANGLE: "deg"}), dict(build_network_map=True, exclude_pgns=[60928])]
     hist = [fp.ebyte_packet(60928, 11, 255, 6, dr.name_payload(1, 1)), fp.ebyte_packet(127250, 11, 255, 2, bytes([1, 0x10, 0x20, 0, 0, 0, 0, 0xFC])),
             fp.ebyte_packet(130306, 11, 255, 2, bytes([2, 0x11, 0x01, 0x20, 0x03, 0xFA, 0xFF, 0xFF])),
